@@ -321,6 +321,12 @@ func (w *world) Run(t *rt.Tape, trace bool) *core.Result {
 	core.BeginRun(t)
 	ab, smallAB := core.DrawDir(t, core.Caps)
 	ba, smallBA := core.DrawDir(t, core.Caps)
+	// one case in five: the transport returns (0, nil) from Read now and then,
+	// which io.Reader allows (never twice in a row)
+	if t.Choose(rt.SGen, 5) == 0 {
+		ab.EmptyReads = 2 + t.Choose(rt.SGen, 3)
+		ba.EmptyReads = 2 + t.Choose(rt.SGen, 3)
+	}
 	first := t.Choose(rt.SGen, 2) // which side closes first (relies on Close to flush)
 	a := &side{name: "A"}
 	b := &side{name: "B"}
@@ -423,6 +429,7 @@ func (w *world) Run(t *rt.Tape, trace bool) *core.Result {
 	res.Reach["pipe.writer-blocked"] += st.WriterBlocked
 	res.Reach["pipe.reader-blocked"] += st.ReaderBlocked
 	res.Reach["pipe.one-byte-reads"] += st.OneByteReads
+	res.Reach["pipe.empty-reads"] += st.EmptyReads
 	res.Nontrivial = len(a.sendOps)+len(b.sendOps) > 0 && rr.Switches > 2
 	if res.Inconclusive != "" {
 		return res
